@@ -74,15 +74,29 @@ ASSUMPTIONS = [
     'decoder state is observed only through decode() results, the argument array and the noise tables',
 ]
 BOUNDS = {
-    'quick': {'depth3_max_alphabet': 16, 'depth3_all_forms_max': 16, 'full_alphabet_max': 64, 'tie_syndromes_max': 6, 'mbp_max_bp_iter': 3,
+    'quick': {'history_length': '2; 3 where the alphabet has <= 16 symbols (MBP: <= 8)',
+              'depth3_max_alphabet': 16, 'depth3_all_forms_max': 16, 'full_alphabet_max': 64,
+              'tie_syndromes_max': 6, 'tie_scripts_per_syndrome_max': 81, 'mbp_max_bp_iter': 3,
               'union_find_alphabet': 'weight-1', 'forms_exact': ['uint8', 'int64'],
-              'forms_walk': ['uint8', 'int64', 'uint8-ro', 'int64-ro']},
-    'thorough': {'depth3_max_alphabet': 64, 'depth3_all_forms_max': 32, 'full_alphabet_max': 64, 'tie_syndromes_max': 200, 'mbp_max_bp_iter': 3,
+              'forms_walk': ['uint8', 'int64', 'uint8-ro', 'int64-ro'],
+              'noise': 'PauliErrorModel(0.2, 0.3, 0.5), p = 0.1',
+              'codes': 'RotatedPlanar2D 2x2 (8 syndromes), Planar2D 2x2 (16), RotatedPlanar2D 3x2 (32), Toric2D 2x2 (64); '
+                       'weight-1 alphabets: XCube 2x2x2, Toric3D 2x2x2, Planar3D 2x2x2, RotatedPlanar3D 2x2x2'},
+    'thorough': {'history_length': '2; 3 where the alphabet has <= 32 symbols (MBP: <= 16), and for the 64-symbol '
+                                   'alphabet in the uint8 form (Matching; BP-OSD with osd_order 10)',
+                 'depth3_max_alphabet': 64, 'depth3_all_forms_max': 32, 'full_alphabet_max': 64,
+                 'tie_syndromes_max': 200, 'tie_scripts_per_syndrome_max': 81, 'mbp_max_bp_iter': 3,
                  'union_find_alphabet': 'full', 'forms_exact': ['uint8', 'int64'],
-                 'forms_walk': ['uint8', 'int64', 'uint8-ro', 'int64-ro']},
+                 'forms_walk': ['uint8', 'int64', 'uint8-ro', 'int64-ro'],
+                 'noise': 'PauliErrorModel(0.2, 0.3, 0.5) and its XZZX-deformed version (Matching, one BP-OSD '
+                          'configuration), p = 0.1',
+                 'codes': 'quick list + RotatedPlanar2D 2x3, Toric2D 3x3 (union-find, weight-1), BP-OSD with weight-1 '
+                          'alphabets on the smallest size of 14 further classes (undeformed and first deformation), '
+                          'sweep decoders on Toric3D 2x2x3 / 3x3x3, RotatedToric3D 2x2x2, RotatedPlanar3D 3x3x3 and the '
+                          'bare sweepers'},
 }
-BUDGET_S = {'quick': 600, 'thorough': 5400}
-LEAF_CAP = 81            # tie-break scripts per syndrome
+BUDGET_S = {'quick': 900, 'thorough': 10800}
+LEAF_CAP = 81            # tie-break scripts per syndrome (a hit sets 'capped')
 NOISE = [0.2, 0.3, 0.5]
 P = 0.1
 FORMS = {'uint8': (np.uint8, False), 'int64': (np.int64, False),
@@ -371,6 +385,8 @@ def eval_case(case):
 
     # ---- alphabet of symbols and table of fresh-decoder outcomes (reference form: writable, same dtype)
     syndromes = _alphabet(ctx, 'full' if case['alphabet'] == 'full' else 'w1')
+    if case['alphabet'] == 'full' and len(syndromes) > 64:
+        raise AssertionError('full alphabet larger than the stated bound')
     symbols, fresh, fresh_valid = [], {}, {}
 
     def add_syndrome(s, only_if_tie=False):
